@@ -48,7 +48,7 @@ TCheck ==
         ELSE \* fault
              (IF e.baseDiags > 0 THEN Stat([l |-> l, discard |-> "base document not cleanly accepted"])
               ELSE IF viol = {} THEN Stat([l |-> l, discard |-> "mutation stayed valid", fault |-> e.fault])
-              ELSE IF e.out.diags # <<>> THEN Stat([l |-> l, ok |-> "fault-reported", rules |-> {v.rule : v \in viol}])
+              ELSE IF e.out.diags # <<>> THEN Stat([l |-> l, ok |-> "fault-reported", rules |-> {v.rule : v \in viol}, fault |-> IF "fault" \in DOMAIN e /\ "operator" \in DOMAIN e.fault THEN e.fault.operator ELSE "pair"])
               ELSE PrintT(<<"ITEM", ToJson([cls |-> "missed-violation", what |-> "check accepted a document that violates an implemented rule", l |-> l,
                                              rules |-> {v.rule : v \in viol}, fault |-> e.fault, doc |-> e.files])>>))
 Init == l = 1
